@@ -209,6 +209,9 @@ def run_one(t):
         f["ck"] = CK_TYPES[t.choose(2, "crc type")]
     if sc in ("checksum_ack", "checksum_unack", "nak_limit", "check_dst", "size_error"):
         f["size_sel"] = [0, 6, 7, 5][t.choose(4, "size")]
+    if sc == "nak_limit":
+        # incl. maximum packet lengths that hold one or two segment requests per NAK PDU: the sequence is then split
+        f["mpl_sel"] = [0, 6, 7, 1][t.choose(4, "nak limit mpl")]
     if sc == "fs_reject":
         # incl. empty files: with nothing to receive, completion is decided in the very call that declares the rejection
         f["size_sel"] = [0, 3, 1, 6][t.choose(4, "size")]
@@ -265,7 +268,7 @@ def run_one(t):
             if sc == "nak_limit":
                 w.link.enabled = {"drop"}
                 w.link.rate = (1, 3)
-                w.link.budget = 1 + t.choose(2, "drops")
+                w.link.budget = 1 + t.choose(5, "drops")
             state = {"done": False}
 
             class Cut(Monitor):
